@@ -344,19 +344,6 @@ theorem map_flatMap_sem (P : Par2 α) (m : Nat) (F : Nat → List BG) :
     ((List.range m).flatMap F).map (BG.sem P) = (List.range m).flatMap (fun k => (F k).map (BG.sem P)) := by
   rw [List.map_flatMap]
 
-/-- description of one step of a loading chain: `add = false`: move the 1 from `a` to `b`
-(controlled RBS, for complex data with its two RZ gates); `add = true`: write a 1 on `a`
-(controlled RY / U3). -/
-structure ChainStep where
-  add : Bool
-  a : Nat
-  b : Nat := 0
-  cs : List Nat
-  last : Bool := false
-
-def ChainStep.fn (cplx : Bool) (d : ChainStep) : StepFn :=
-  if d.add then ryStep cplx d.last d.a d.cs else rbsStepOn cplx d.a d.b d.cs
-
 def ChainStep.A (P : Par2 α) (cplx : Bool) (d : ChainStep) (k : Nat) : α :=
   if d.add then ryA P cplx d.last k else stepA P cplx k
 def ChainStep.B (P : Par2 α) (cplx : Bool) (d : ChainStep) (k : Nat) : α :=
